@@ -75,40 +75,48 @@ Print Assumptions notmet_iff_false.
 
 (* ---- values are converted exactly or the conversion fails.
         Full statement:  forall ext t v, convert ext t v = spec_convert ext t v.
-        PARTIAL: proved when no Int64() result was clamped and no decimal string given for an
-        int/uint needed rounding to the 64 bits big.ParseFloat keeps.  The full statement is
-        refuted below (finding F8 and the fraction rounding). ---- *)
+        PARTIAL: proved when no decimal string given for an int/uint needed rounding to the 64
+        bits big.ParseFloat keeps; the full statement is refuted below (open finding
+        int_fraction_rounded).  The former hypothesis "no Int64() clamp" (finding F8) is gone:
+        the converter was repaired by fd0d452 and the model follows it. ---- *)
 Theorem convert_exact_or_error_partial :
   forall (ext : N -> bytes -> bool) (t : ptype) (v : jval),
-  conv_flag num_clamped t v = false -> conv_flag num_inexact t v = false ->
+  conv_flag num_inexact t v = false ->
   convert ext t v = spec_convert ext t v.
 Proof. exact CondProofs.convert_exact_or_error_partial. Qed.
 Print Assumptions convert_exact_or_error_partial.
 
 Theorem convert_int_exact_partial :
   forall (ext : N -> bytes -> bool) (v : jval) (z n d : Z),
-  num_clamped v = false -> num_inexact v = false ->
+  num_inexact v = false ->
   convert ext TInt v = COk (VInt z) -> exact_frac v = SFrac n d ->
   n = z * d /\ min_int64 <= z <= max_int64.
 Proof. exact CondProofs.convert_int_exact_partial. Qed.
 Print Assumptions convert_int_exact_partial.
 
-Theorem convert_int_clamp_refuted :
-  exists v z, convert no_ext TInt v = COk (VInt z) /\ spec_convert no_ext TInt v = CErr /\
-              num_clamped v = true.
-Proof. exact CondProofs.convert_int_clamp_refuted. Qed.
-Print Assumptions convert_int_clamp_refuted.
+(* a number beyond the range of the declared integer type is a type error, never clamped
+   (exact value n/d; hypothesis: not an inexactly parsed decimal string) *)
+Theorem convert_out_of_range_is_error :
+  forall (ext : N -> bytes -> bool) (v : jval) (n d : Z),
+  num_inexact v = false -> exact_frac v = SFrac n d -> 0 < d ->
+  ((n < min_int64 * d \/ max_int64 * d < n) -> convert ext TInt v = CErr) /\
+  ((n < 0 \/ max_uint64 * d < n) -> convert ext TUint v = CErr).
+Proof. exact CondProofs.convert_out_of_range_is_error. Qed.
+Print Assumptions convert_out_of_range_is_error.
 
-Theorem convert_uint_clamp_refuted :
-  exists v, convert no_ext TUint v = COk (VUint max_int64) /\
-            spec_convert no_ext TUint v = COk (VUint max_uint64).
-Proof. exact CondProofs.convert_uint_clamp_refuted. Qed.
-Print Assumptions convert_uint_clamp_refuted.
+(* every uint64 value, up to 2^64-1, converts to itself *)
+Theorem convert_uint_full_range :
+  forall (ext : N -> bytes -> bool) (v : jval) (z d : Z),
+  num_inexact v = false -> exact_frac v = SFrac (z * d) d -> 0 < d ->
+  0 <= z <= max_uint64 ->
+  convert ext TUint v = COk (VUint z).
+Proof. exact CondProofs.convert_uint_full_range. Qed.
+Print Assumptions convert_uint_full_range.
 
 Theorem convert_fraction_rounded_refuted :
   convert no_ext TInt (JStr s_one_and_a_bit) = COk (VInt 1) /\
   spec_convert no_ext TInt (JStr s_one_and_a_bit) = CErr /\
-  num_clamped (JStr s_one_and_a_bit) = false /\ num_rounded (JStr s_one_and_a_bit) = true.
+  num_rounded (JStr s_one_and_a_bit) = true.
 Proof. exact CondProofs.convert_fraction_rounded_refuted. Qed.
 Print Assumptions convert_fraction_rounded_refuted.
 
@@ -116,16 +124,15 @@ Print Assumptions convert_fraction_rounded_refuted.
         Full statement: without the hypothesis.  PARTIAL, refuted by met_iff_exact_true_refuted. ---- *)
 Theorem evaluate_matches_spec_partial :
   forall (ext : N -> bytes -> bool) (tname : bytes) (stored : ctx) (ec : option condition) (req : ctx),
-  (forall c, ec = Some c -> eval_flag num_clamped c req stored = false /\
-                            eval_flag num_inexact c req stored = false) ->
+  (forall c, ec = Some c -> eval_flag num_inexact c req stored = false) ->
   evaluate_tuple_condition (convert ext) tname stored ec req =
   evaluate_tuple_condition (spec_convert ext) tname stored ec req.
 Proof. exact CondProofs.evaluate_matches_spec_partial. Qed.
 Print Assumptions evaluate_matches_spec_partial.
 
 Theorem met_iff_exact_true_refuted :
-  evaluate_tuple_condition (convert no_ext) k_ci [] (Some cond_ci) [(k_y, JNum (FFin 19073486328125 19))] = TMet /\
-  evaluate_tuple_condition (spec_convert no_ext) k_ci [] (Some cond_ci) [(k_y, JNum (FFin 19073486328125 19))] = TErr EType.
+  evaluate_tuple_condition (convert no_ext) k_c1y [] (Some cond_c1y) [(k_y, JStr s_one_and_a_bit)] = TMet /\
+  evaluate_tuple_condition (spec_convert no_ext) k_c1y [] (Some cond_c1y) [(k_y, JStr s_one_and_a_bit)] = TErr EType.
 Proof. exact CondProofs.met_iff_exact_true_refuted. Qed.
 Print Assumptions met_iff_exact_true_refuted.
 
@@ -226,7 +233,6 @@ Proof. vm_compute. auto. Qed.
 (* convert_exact_or_error_partial / convert_int_exact_partial: the hypotheses hold for "42e0",
    for 2^62 and for a list of them, and the conversion is not trivial *)
 Example convert_partial_instance :
-  conv_flag num_clamped (TList TInt) (JList [JStr s_42e0; JNum (FFin 1 62)]) = false /\
   conv_flag num_inexact (TList TInt) (JList [JStr s_42e0; JNum (FFin 1 62)]) = false /\
   convert no_ext (TList TInt) (JList [JStr s_42e0; JNum (FFin 1 62)]) = COk (VList [VInt 42; VInt 4611686018427387904]) /\
   exact_frac (JStr s_42e0) = SFrac 42 1.
@@ -234,8 +240,24 @@ Proof. vm_compute. auto. Qed.
 
 (* evaluate_matches_spec_partial: its hypothesis holds for the instance above *)
 Example evaluate_matches_spec_instance :
-  eval_flag num_clamped cond_c1 [(k_pa, JBool false); (k_pb, JNum (FFin 1 0))] [(k_pb, JStr s_42e0)] = false /\
   eval_flag num_inexact cond_c1 [(k_pa, JBool false); (k_pb, JNum (FFin 1 0))] [(k_pb, JStr s_42e0)] = false.
+Proof. vm_compute. auto. Qed.
+
+(* convert_out_of_range_is_error: 1e19 = 19073486328125 * 2^19 for an int, 3e19 for a uint, -1 for a uint *)
+Example out_of_range_instance :
+  exact_frac (JNum (FFin 19073486328125 19)) = SFrac 10000000000000000000 1 /\
+  max_int64 * 1 < 10000000000000000000 /\
+  convert no_ext TInt (JNum (FFin 19073486328125 19)) = CErr /\
+  convert no_ext TUint (JNum (FFin 57220458984375 19)) = CErr /\
+  convert no_ext TUint (JNum (FFin (-1) 0)) = CErr.
+Proof. vm_compute. auto. Qed.
+
+(* convert_uint_full_range: 2^64-1 given as a string, 2^63 given as a number *)
+Example uint_full_range_instance :
+  exact_frac (JStr [49;56;52;52;54;55;52;52;48;55;51;55;48;57;53;53;49;54;49;53]%N) = SFrac (max_uint64 * 1) 1 /\
+  num_inexact (JStr [49;56;52;52;54;55;52;52;48;55;51;55;48;57;53;53;49;54;49;53]%N) = false /\
+  convert no_ext TUint (JStr [49;56;52;52;54;55;52;52;48;55;51;55;48;57;53;53;49;54;49;53]%N) = COk (VUint max_uint64) /\
+  convert no_ext TUint (JNum (FFin 1 63)) = COk (VUint 9223372036854775808).
 Proof. vm_compute. auto. Qed.
 
 (* absorption: (pm["a"] == "a") is a runtime error on an empty map, and is absorbed by a true
